@@ -122,7 +122,14 @@ fn hostile_block(t: &mut Tape, tag: &str, count: &mut usize) -> Vec<C> {
     for _ in 0..n {
         *count += 1;
         let h = X::Raw(hostile(t));
-        v.push(match t.below(9) {
+        v.push(match t.below(10) {
+            // a loop body that changes the collection it iterates over
+            9 => C::ForEach {
+                array: X::Raw((*t.pick(&["arr", "m1", "[arr, arr]", "arr.concat ? arr : arr"])).to_string()),
+                item: "it".into(),
+                index: Some("ix".into()),
+                body: vec![C::Script(X::Raw((*t.pick(&["arr[0] = 5", "arr[ix] = it", "arr = []", "arr[0] = arr", "m1.k = it", "arr[arr.length] = 1", "i1 = i1 + 1"])).to_string()))],
+            },
             0 => C::Assign { var: (*t.pick(&["i1", "s1", "arr", "m1.k", "ro", "nosuch"])).to_string(), expr: h },
             1 => C::Log(h),
             2 => C::Script(h),
